@@ -1,0 +1,7 @@
+//go:build !verif
+
+package client
+
+// verifGate is a no-op unless the package is built with the "verif" build tag
+// (see verif_on.go).
+func verifGate(string) {}
